@@ -3,7 +3,7 @@ import copy
 import numpy as np
 
 from sim.core import Violation, Inconclusive, SimRandom, Scheduler, RandomProxy, patched_random, close
-from sim.models import gen_mdp_spec, MDPView, make_mdp, dyadic
+from sim.models import nested_variant_spec, gen_mdp_spec, MDPView, make_mdp, dyadic
 from sim.refsolve import optimal_values
 from sim.ctx import RunCtx, make_scheduler, gen_sched
 from sim import shrink as shr
@@ -56,6 +56,8 @@ def gen_case(rng, tier, idx):
                override=sorted(rng.sample(COMPONENTS, rng.randint(0, 4))), optname=rng.choice(('o', 'opt-1', 'go')),
                include_mdp_actions=rng.random() < 0.4, alias=rng.choice(('fresh', 'cached', 'shared')), ask_actions=rng.random() < 0.6)
     plain = idx % 4 == 0
+    if rng.random() < 0.12 and not plain:
+        cfg['nest'] = rng.randrange(1000)
     sched = gen_sched(rng, ('P',) if plain else ('P', 'U', 'R'), budget_choices=(None,), coop=False, cap=200000)
     return dict(spec=spec, cfg=cfg, sched=sched)
 
@@ -81,7 +83,7 @@ def execute(case, script=None):
     _r.seed(f"global:{case.get('verif_seed')}:{case.get('index')}")
     view = MDPView(case['spec'])
     ctx = RunCtx(PROP, view)
-    ctx.declare_probes('option_raised_must', 'option_returned_must', 'boundary_raised', 'start_terminal',
+    ctx.declare_probes('nested_run', 'second_derived_mdp_alive', 'second_planned_option_alive', 'option_raised_must', 'option_returned_must', 'boundary_raised', 'start_terminal',
                        'smdp_call_raised', 'smdp_dist_checked', 'primitive_checked', 'static_override_sets', 'plan_option',
                        'subtask_plan_checked', 'f7_before', 'f7_boundary', 'f7_after', 'cross_call_checked', 'smdp_actions_asked', 'option_run_longer_than_330_steps')
     sched = make_scheduler(case, script, ctx)
@@ -125,6 +127,19 @@ def _execute(view, cfg, ctx, sched):
                                    include_mdp_absorbing_states=cfg['include_abs'], name=cfg['optname'],
                                    max_steps=cfg['max_steps'],
                                    max_nonterminal_pseudoreward=float('inf') if cfg['clip'] is None else cfg['clip'])
+        other_goals = [s for s in base_states if s not in term][:1]
+        if other_goals:
+            # (two live objects) a second sub-goal option - other sub-goal, other clipping level - builds its sub-task
+            # before the first option's sub-task is looked at
+            popt_other = PlanToSubgoalOption(mdp=mdp, initial_states=[sk[s] for s in base_states if s not in other_goals] or [sk[base_states[0]]],
+                                             subgoals=[sk[s] for s in other_goals], planner=ValueIteration(max_residual=1e-10),
+                                             include_mdp_absorbing_states=not cfg['include_abs'], name='other-' + str(cfg['optname']),
+                                             max_steps=cfg['max_steps'], max_nonterminal_pseudoreward=-0.125)
+            try:
+                popt.sub_task, popt_other.sub_task
+            except Exception as e:
+                raise Violation('exception', f"sub_task raised {type(e).__name__}: {e}")
+            ctx.probe('second_planned_option_alive')
         _static_subtask(ctx, view, popt, cfg, term)
         try:
             ppol = popt.policy
@@ -224,7 +239,35 @@ def _execute(view, cfg, ctx, sched):
             raise Violation('exception', f"Option.run_on raised {type(e).__name__}: {e}")
         return calls[-1]
 
+    hookN = None
+    if cfg.get('nest') is not None:
+        # fault F10: at the k-th model call-back of the option's run, user code runs ANOTHER option (other policy, other
+        # termination set) on another model with the same keys - an option whose policy looks ahead with a scout option
+        nv = MDPView(nested_variant_spec(view.spec, cfg['nest']))
+        nmdp = make_mdp(nv, None)
+        nterm = {s for s in range(view.N) if (s + cfg['nest']) % 3 == 0}
+
+        class Scout(Option):
+            name = 'scout'
+            max_steps = 4
+            policy = FunctionalPolicy(lambda s: DictDistribution.uniform([ak[a] for a in nv.A[sid[s]]]))
+
+            def is_initial(self, s):
+                return True
+
+            def is_terminal(self, s):
+                return sid[s] in nterm
+
+        def nested():
+            ctx.probe('nested_run')
+            try:
+                Scout().run_on(nmdp, sk[start], rng=SimRandom(sched))
+            except AlgorithmException:
+                pass
+        hookN = ctx.nest_after(1 + cfg['nest'] % 9, nested)
     judge(call_option(o, rng), start, 'option#1')
+    if hookN is not None:
+        ctx.disarm(hookN)
     n0 = len(sched.log)
     long_o = Opt(60)
     end, T, _, outcome = judge(call_option(long_o, rng), start, 'option#2(max_steps=60)')
@@ -418,6 +461,32 @@ def _static_augment(ctx, view, mdp, cfg, augment):
         aug = augment(mdp, **kw)
     except Exception as e:
         raise Violation('exception', f"augment({sorted(ov)}) raised {type(e).__name__}: {e}")
+    # fault F10 (two live objects): before the derived MDP is used, ANOTHER MDP of the same class - same keys, other
+    # discount / absorbing set / probabilities / rewards - is augmented with the same set of overridden components
+    # (other functions); the second derived MDP stays alive while the first one is checked
+    ov_view = MDPView(nested_variant_spec(view.spec, 5 + len(ov)))
+    other = make_mdp(ov_view, None)
+    kw2 = {}
+    if 'initial_state_dist' in ov:
+        kw2['initial_state_dist'] = lambda: DictDistribution({sk[0]: 1.0})
+    if 'actions' in ov:
+        kw2['actions'] = lambda s: [ak[a] for a in ov_view.A[sid[s]]][:1]
+    if 'next_state_dist' in ov:
+        kw2['next_state_dist'] = lambda s, a: DictDistribution({sk[0]: 1.0})
+    if 'reward' in ov:
+        kw2['reward'] = lambda s, a, ns: -7.0
+    if 'is_absorbing' in ov:
+        kw2['is_absorbing'] = lambda s: sid[s] % 2 == 1
+    if 'state_list' in ov:
+        kw2['state_list'] = tuple(other.state_list)
+    if 'action_list' in ov:
+        kw2['action_list'] = tuple(other.action_list)
+    try:
+        aug_other = augment(other, **kw2)
+        aug_other.discount_rate, aug_other.is_absorbing(sk[0]), list(aug_other.actions(sk[0]))
+    except Exception as e:
+        raise Violation('exception', f"augment({sorted(ov)}) of a second MDP raised {type(e).__name__}: {e}")
+    ctx.probe('second_derived_mdp_alive')
 
     def chk(cond, what):
         ctx.check(cond, 'augment-preserves', lambda: f"augment overriding {sorted(ov)}: {what() if callable(what) else what}",
